@@ -43,6 +43,11 @@ def lVnew (prm : LGMRES.Params K) (A : CRS K) (P : Vec K → Vec K) (t : LGMRES.
 /-- `*ws[i]`: the vector that was fed in pass `i`, dereferenced in state `t` (as `lin_comb` does) -/
 def lZ (t : LGMRES.In K) (i : ℕ) : Vec K := LGMRES.deref t.w (t.w.wsp.get i)
 
+/-- the `x` that `LGMRES.update` returns when the inner loop of the cycle started in `st` has made `j` passes -/
+def lCycleIterate (prm : LGMRES.Params K) (sqrt : K → K) (A : CRS K) (P : Vec K → Vec K) (st : LGMRES.St K) (j : ℕ) :
+    Vec K :=
+  (LGMRES.update prm stdIp sqrt P st (lPass prm sqrt A P st j)).x
+
 /-- one pass together with the ghost update (the unrotated column and the orthogonalised vector) -/
 def lStepG (prm : LGMRES.Params K) (sqrt : K → K) (A : CRS K) (P : Vec K → Vec K)
     (g : LGMRES.In K × Ghost K) : LGMRES.In K × Ghost K :=
